@@ -147,10 +147,17 @@ Definition pos_find (s : pos) (key : Z -> bool) (rm : bool) : option (Z * pos) :
   | Some (e, q) => Some (eobj e, with_pq s q)
   end.
 
-Definition pos_reschedule (s : pos) (key : Z -> bool) (np : Q) : option (Z * pos) :=
+Definition pos_reschedule_reg (s : pos) (key : Z -> bool) (np : Q) : option (Z * pos) :=
   match pq_reschedule H (pq_ s) key (mkPV np (n_ins s) 0 1) with
   | None => None
   | Some (o, q) => Some (o, with_pq s q)
+  end.
+(* reschedule(): an entry scheduled at a position (class 0) keeps its place *)
+Definition pos_reschedule (s : pos) (key : Z -> bool) (np : Q) : option (Z * pos) :=
+  match pq_find H (pq_ s) key false with
+  | None => None
+  | Some (e, _) => if (pclass (epri e) =? 0)%Z then Some (eobj e, s)
+                   else pos_reschedule_reg s key np
   end.
 
 (* reschedule_all with get_priority given as a function of the object *)
